@@ -266,7 +266,11 @@ impl Launcher {
         };
         cmd.args(args);
         for (k, v) in extra_env {
-            cmd.env(k, v);
+            if v == "<unset>" {
+                cmd.env_remove(k);
+            } else {
+                cmd.env(k, v);
+            }
         }
         self.seed_randomness(&mut cmd, rand);
         let child = match self.spawn_with_affinity(&mut cmd, 1, 0) {
